@@ -3,6 +3,7 @@ import io
 import json
 import os
 import random
+import time
 import warnings
 
 from . import lib, walktap, walkgen
@@ -168,6 +169,39 @@ WALKERS = [("simplifier", "plain", True, False), ("substituter", "subst", True, 
            ("theoryo", "plain", True, False), ("sizeo", "size", False, False)]
 
 
+PERSISTENT = ("stc", "simplifier", "fvo", "qfo", "ao", "typeso", "theoryo", "sizeo")
+
+
+class MemoWatch(object):
+    """The model's `a persistent memo only grows` on the implementation, for every long-lived
+    walker of an environment: after every call the table is at least as large as before and a
+    sample of earlier keys still maps to the identical object (any eviction policy shows here)."""
+
+    def __init__(self, env, rnd=None):
+        self.env = env
+        self.size = dict((w, len(getattr(env, w).memoization)) for w in PERSISTENT)
+        self.sample = dict((w, {}) for w in PERSISTENT)
+        self.problems = []
+        self.rnd = rnd
+
+    def check(self, label):
+        for w in PERSISTENT:
+            memo = getattr(self.env, w).memoization
+            if len(memo) < self.size[w]:
+                self.problems.append("env.%s: memo table shrank from %d to %d entries during %s" % (w, self.size[w], len(memo), label))
+            for k, v in self.sample[w].items():
+                cur = memo.get(k, self)
+                if cur is not v:
+                    self.problems.append("env.%s: an entry stored earlier %s during %s" % (w, "was dropped" if cur is self else "was replaced by another object", label))
+                    break
+            if len(memo) != self.size[w] and len(self.sample[w]) < 12:
+                # a few of the newest keys (dicts keep insertion order)
+                for k in list(memo)[-2:]:
+                    self.sample[w][k] = memo[k]
+            self.size[w] = len(memo)
+        return self.problems
+
+
 def one_history(rnd, C, hist_len, record):
     """Returns (replay dict, diffs, recorders)."""
     from pysmt.environment import Environment
@@ -205,8 +239,10 @@ def one_history(rnd, C, hist_len, record):
         finally:
             pe.pop_env()
     failing = False
+    watch = MemoWatch(env)
     for call in history:
         o = do(env, nodes, call)
+        watch.check("%s(row %d)" % (call[0], call[1]))
         if o[0] == "raise":
             failing = True             # not a C14 history
             break
@@ -216,6 +252,8 @@ def one_history(rnd, C, hist_len, record):
         return None
     after = do(env, nodes, probe)
     again = do(env, nodes, probe)
+    watch.check("probe %s(row %d)" % (probe[0], probe[1]))
+    problems += watch.problems[:1]
     for r in recs:
         r.check_memo_stable("%s(row %d)" % (probe[0], probe[1]))
         problems += r.problems
@@ -582,6 +620,95 @@ def replay_binder(*a):
     return 1 if c.v else 0
 
 
+# ---------------------------------------------------------------------------------------------
+# History VOLUME: more than 2^16 and more than 2^17 distinct nodes through every long-lived
+# walker between a call and its repetition (C14-E class: eviction / size-triggered resets)
+# ---------------------------------------------------------------------------------------------
+
+def volume_formula(env, levels, tag):
+    """Not(And(., atom_k)) chain with a fresh constant per level: 5 new nodes per level, linear
+    for every walker (nothing to flatten)."""
+    from pysmt.typing import INT, BOOL
+    m = env.formula_manager
+    x = m.Symbol("vol_%s" % tag, BOOL)
+    i = m.Symbol("vol_i", INT)
+    for k in range(levels):
+        x = m.Not(m.And(x, m.LT(i, m.Int(1000000 * (1 + hash(tag) % 7) + k))))
+    return x
+
+
+def volume_history(chk, rnd, stages=(14500, 14500)):
+    from pysmt.environment import Environment
+    import pysmt.oracles as orc
+    rows = walkgen.gen_recipe(rnd, 14, sorts=SORTS)
+
+    def probes(env):
+        nodes = walkgen.build(env, rows)
+        bools = [n for n in nodes if env.stc.get_type(n).is_bool_type()]
+        fs = bools[-3:] + [nodes[len(nodes) // 2]]
+        calls = []
+        for f in fs:
+            isb = env.stc.get_type(f).is_bool_type()
+            calls += [("free_vars", f, lambda f=f: env.fvo.get_free_variables(f)), ("theory", f, lambda f=f: env.theoryo.get_theory(f)),
+                      ("types", f, lambda f=f: env.typeso.walk(f)), ("qf", f, lambda f=f: env.qfo.is_qf(f)),
+                      ("size_dag", f, lambda f=f: env.sizeo.walk(f, measure=1)), ("simplify", f, lambda f=f: env.simplifier.simplify(f)),
+                      ("get_type", f, lambda f=f: env.stc.get_type(f))]
+            if isb:
+                calls.append(("atoms", f, lambda f=f: env.ao.get_atoms(f)))
+        return calls
+    env, fresh = Environment(), Environment()
+    watch = MemoWatch(env)
+    first = [(nm, f, fn()) for nm, f, fn in probes(env)]
+    watch.check("the first probe calls")
+    total = 0
+    history = ["%d probe calls on 4 small formulas (results kept)" % len(first)]
+    bad = []
+    for si, levels in enumerate(stages):
+        big = volume_formula(env, levels, "s%d" % si)
+        nbig = walktap.distinct_subformulas(big)
+        total += nbig
+        env.sizeo.set_walking_measure(1)
+        for nm, fn in (("fvo", lambda: env.fvo.get_free_variables(big)), ("ao", lambda: env.ao.get_atoms(big)), ("theoryo", lambda: env.theoryo.get_theory(big)),
+                       ("typeso", lambda: env.typeso.walk(big)), ("qfo", lambda: env.qfo.is_qf(big)), ("sizeo", lambda: env.sizeo.get_size(big, 0)),
+                       ("simplifier", lambda: env.simplifier.simplify(big))):
+            fn()
+            watch.check("%s on a formula with %d distinct nodes" % (nm, nbig))
+        history.append("every long-lived walker on a formula with %d distinct nodes (%d so far)" % (nbig, total))
+        # one more small call on a formula not seen before (the call after the volume)
+        m = env.formula_manager
+        small = m.And(m.Symbol("vol_after_%d" % si), walkgen.build(env, rows)[-1] if env.stc.get_type(walkgen.build(env, rows)[-1]).is_bool_type() else m.TRUE())
+        for fn in (lambda: env.fvo.get_free_variables(small), lambda: env.ao.get_atoms(small), lambda: env.theoryo.get_theory(small), lambda: env.typeso.walk(small),
+                   lambda: env.qfo.is_qf(small), lambda: env.sizeo.walk(small, measure=1), lambda: env.simplifier.simplify(small)):
+            fn()
+        watch.check("a small call after the volume")
+        history.append("one small call per walker on a new formula")
+        again = [(nm, f, fn()) for nm, f, fn in probes(env)]
+        for (nm, f, a), (_, _, b) in zip(first, again):
+            chk.count(("volume", nm, si, walkgen.canon(f)[:60]))
+            if a is not b and not bad:
+                bad.append((nm, walkgen.canon(f), walkgen.canon_value(a) == walkgen.canon_value(b), total))
+    fres = [(nm, f, fn()) for nm, f, fn in probes(fresh)]
+    for (nm, f, a), (_, _, b) in zip(first, fres):
+        if walkgen.canon_value(a) != walkgen.canon_value(b) and not bad:
+            bad.append((nm + " (value differs from a fresh environment)", walkgen.canon(f), False, total))
+    rep = {"kind": "history", "history": history + ["the probe calls again"], "recipe": rows, "repro": "harness.c14.replay_volume(%r)" % (list(stages),)}
+    if bad:
+        nm, fk, same_value, tot = bad[0]
+        chk.violation(dict(rep, what="repeating %s(%s) after %d distinct nodes went through the environment's walkers returns %s object than the first call "
+                           "(the property asks for the very same object)" % (nm, fk[:200], tot, "an equal but DIFFERENT" if same_value else "a different-valued")),
+                      key="volume:identity:%s" % nm.split(" ")[0])
+    elif watch.problems:
+        chk.violation(dict(rep, what=watch.problems[0] + " (model: a persistent memo only grows, C14_memo_inv)"), key="volume:memo-shrinks")
+    return total
+
+
+def replay_volume(stages):
+    warnings.simplefilter("ignore")
+    c = _MiniChk()
+    volume_history(c, random.Random(0), tuple(stages))
+    return 1 if c.v else 0
+
+
 def run(tier):
     chk = lib.Check("C14", tier)
     rnd = random.Random(chk.seed)
@@ -614,6 +741,10 @@ def run(tier):
             chk.sample({"history": replay["history"], "probe": replay["probe"], "rows": len(replay["recipe"])})
     chk.note("histories %d (skipped because a call of the history raised: %d)" % (done, skipped))
     aliasing_directed(chk)
+    tv = time.time()
+    vol = [volume_history(chk, rnd) for _ in range(1 if tier == "quick" else 3)]
+    chk.cov["volume_histories"] = {"count": len(vol), "distinct_nodes_through_each_walker": vol, "stages": "after > 2^16 and after > 2^17 distinct nodes",
+                                   "seconds": round(time.time() - tv, 1)}
     sort_aliasing(chk)
     binder_arg_histories(chk, rnd, 512 if tier == "quick" else 4096)
 
